@@ -9,7 +9,9 @@ CONSTANTS Ranges,          \* media ranges offered to AddRange (well-formed and 
           MTypes,          \* candidate media types
           MaxRanges, MaxCands,
           SubBeforeExact,  \* TRUE = documented order; FALSE = wrong design (vacuity switch)
-          Positive         \* TRUE = a best match needs quality > 0; FALSE = wrong design ">= 0"
+          Positive,        \* TRUE = a best match needs quality > 0; FALSE = wrong design ">= 0"
+          QSplits          \* FALSE = every parameter other than q belongs to the range wherever it is written;
+                           \* TRUE = wrong design "q ends the media-type parameters, what follows is dropped"
 
 VARIABLES hdr,     \* the Accept-like header: sequence of media ranges
           cands    \* the candidate list handed to best_match / client_prefers
@@ -28,9 +30,13 @@ Spec == Init /\ [][Next]_vars
 
 WellFormed == hdr # <<>> /\ ~AnyMalformed(hdr)
 
+(* what the modelled implementation makes of a range as written (qp = number of parameters before q) *)
+Seen(r)  == IF QSplits /\ r.q # QABSENT THEN [r EXCEPT !.pm = SubSeq(r.pm, 1, r.qp)] ELSE r
+SeenHdr  == [i \in DOMAIN hdr |-> Seen(hdr[i])]
+QLast(r) == [r EXCEPT !.qp = Len(r.pm)]
 (* what the modelled implementation computes *)
-Q(m)  == QualityOrd(hdr, m, SubBeforeExact)
-Best  == BestIdxOrd(hdr, cands, SubBeforeExact, Positive)
+Q(m)  == QualityOrd(SeenHdr, m, SubBeforeExact)
+Best  == BestIdxOrd(SeenHdr, cands, SubBeforeExact, Positive)
 
 (* ---- properties ---- *)
 SpecificityOrder == WellFormed => \A i \in DOMAIN cands : IsDocumentedQuality(hdr, cands[i], Q(cands[i]))
@@ -44,5 +50,11 @@ MalformedOnlyValueError ==
     /\ BestOutcome(hdr, cands).err = (cands # <<>> /\ AnyMalformed(hdr))
     /\ ~PrefersOutcome(hdr, cands).err
     /\ \A i \in DOMAIN cands : ~AcceptsOutcome(hdr, cands[i]).err /\ (AnyMalformed(hdr) => AcceptsOutcome(hdr, cands[i]).v = 0)
+(* the place of q among the parameters is irrelevant: the same header with every q written last has the
+   same qualities and the same best match *)
+QPositionIrrelevant ==
+    LET h2 == [i \in DOMAIN hdr |-> QLast(hdr[i])] IN
+    WellFormed => /\ \A i \in DOMAIN cands : Q(cands[i]) = QualityOrd(h2, cands[i], SubBeforeExact)
+                  /\ Best = BestIdxOrd(h2, cands, SubBeforeExact, Positive)
 AcceptsIffPositive == WellFormed => \A i \in DOMAIN cands : (AcceptsOutcome(hdr, cands[i]).v = 1) = (Quality(hdr, cands[i]) > 0)
 ==========================================================================
